@@ -1,0 +1,15 @@
+//go:build verif
+
+package astvisitor
+
+// Contracts for the deductive verifier in /verif (comment-only file, build tag verif).
+
+// Reporting an error IS the event validationError (rule visitors are verified against this summary).
+//@ func Walker.StopWithExternalErr
+//@   modifies *
+//@   emits validationError
+//@   trusted records the external error in the walker's report and stops the walk
+//@ func Walker.StopWithInternalErr
+//@   modifies *
+//@   emits validationError
+//@   trusted records the internal error in the walker's report and stops the walk
